@@ -3,6 +3,7 @@
   Property theorems; proofs of the per-rule equivalences in VM/Proofs/RulesProof.lean.
 -/
 import VM.Proofs.RulesProof
+import VM.Proofs.InheritProof
 namespace VM.C03
 open VM Sw Rules
 
@@ -11,8 +12,8 @@ open VM Sw Rules
     responses, definitions), every regexp oracle, both settings of the path-uniqueness option.
     `DistinctKeys` is what Go's maps guarantee: no two operations share method and path.
     The two inheritance rules (duplicate inherited properties, circular ancestry) and
-    arrays-declare-items enter as the emptiness of their model (no independent statement yet);
-    every other rule is stated in `Rules.*` without reference to the loops. -/
+    every rule is stated in `Rules.*` without reference to the loops (the inheritance rules through the walk relation
+    `Revisits` and the names along the ancestry, arrays-declare-items through the chain predicate `itemsDeclared`). -/
 theorem C03_rules (O : Oracles) (v : View) (hk : DistinctKeys v.ops) :
     extraRuleErrs O v = [] ↔ RulesHold O v := by
   unfold extraRuleErrs RulesHold referenceErrs parameterErrs requiredDefinitionErrs requiredDefinitionErrsOf RequiredDefined
@@ -29,7 +30,9 @@ theorem C03_rules (O : Oracles) (v : View) (hk : DistinctKeys v.ops) :
     constructor
     · intro h o ho; exact (operationParamErrs_nil_iff O o).mp (h o ho)
     · intro h o ho; exact (operationParamErrs_nil_iff O o).mpr (h o ho)
-  rw [hreq, hops]
+  have hinh : duplicatePropertyErrs (defsLookup v) v.defs = [] ↔ InheritanceRules v := by
+    rw [duplicatePropertyErrs_nil_iff]; rfl
+  rw [hreq, hops, hinh, itemsErrs_nil_iff]
   cases hr : v.refsResolve <;> cases hs : v.strict <;>
     simp [overlapErrs_nil_iff v.ops hk, and_assoc]
 
@@ -39,6 +42,19 @@ theorem C03_each_rule_reported (O : Oracles) (v : View) (hk : DistinctKeys v.ops
       ∧ RequiredDefined O v ∧ PathsPresent v ∧ v.refsResolve = true := by
   have := (C03_rules O v hk).mp h
   exact ⟨this.2.1, this.2.2.2.1, this.2.2.2.2.1, this.2.2.2.2.2.2.1, this.2.2.2.2.2.2.2, this.1⟩
+
+/-- **The two inheritance rules, declaratively.** The loop of `validateDuplicatePropertyNames` reports nothing exactly when,
+    for every definition that inherits, the walk down its ancestry never follows a reference it is already below
+    (`Revisits`: no ancestor is its own ancestor) and no property name is declared twice along that ancestry
+    (`leafNames … .Nodup`) — whatever the order of the allOf members, the alias chains, the anonymous allOf nesting. -/
+theorem C03_inheritance_rules (defs : String → Option Schema) (l : List (String × Schema)) :
+    duplicatePropertyErrs defs l = [] ↔
+      ∀ ds ∈ l, ds.2.allOf ≠ [] → ¬ Revisits defs 64 ds.2 [defRef ds.1] ∧ (leafNames defs 64 ds.2).Nodup :=
+  duplicatePropertyErrs_nil_iff defs l
+
+/-- the walk reports a reference exactly when it is followed twice on one way down (any nesting bound) -/
+theorem C03_circular_iff (defs : String → Option Schema) (fuel : Nat) (nm : String) (sch : Schema) (path : List String) :
+    (circAnc defs fuel nm sch path).1 ≠ [] ↔ Revisits defs fuel sch path := circAnc_iff defs fuel nm sch path
 
 /-! ### the path-template scanner (helpers.go:130-158) -/
 
@@ -122,6 +138,26 @@ example : requiredPropErrs O0 "missing" "D" 8
 example : (requiredPropErrs O0 "missing" "D" 8
     (.mk { addProps := .schema } none [] none [] [] (some (.mk {} none [] none [("other", Schema.empty)] [] none [] [] [] [] none)) [] [] [] [] none)).map (·.tag)
     = ["requiredButNotDefined:missing|D", "requiredButNotDefined:missing|D"] := by decide
+/-! inheritance: a diamond is not a cycle (the code reported it as one before the `fix:` commit), a cycle below the
+    starting definition is one, a property of the shared ancestor reaches the heir twice -/
+def sRef (n : String) : Schema := .mk { ref := defRef n } none [] none [] [] none [] [] [] [] none
+def sObj (ps : List String) : Schema :=
+  .mk { types := ["object"] } none [] none (ps.map fun p => (p, Schema.empty)) [] none [] [] [] [] none
+def sAllOf (l : List Schema) : Schema := .mk {} none [] none [] [] none [] l [] [] none
+def diamond (cProps : List String) : List (String × Schema) :=
+  [("C", sObj cProps), ("A", sAllOf [sRef "C", sObj ["a"]]), ("B", sAllOf [sRef "C", sObj ["b"]]), ("D", sAllOf [sRef "A", sRef "B"])]
+def lookupIn (l : List (String × Schema)) : String → Option Schema := fun r => alookup r (l.map fun (n, s) => (defRef n, s))
+
+theorem C03_witness_diamond_is_not_circular : duplicatePropertyErrs (lookupIn (diamond [])) (diamond []) = [] := by decide +kernel
+theorem C03_witness_diamond_shared_property :
+    (duplicatePropertyErrs (lookupIn (diamond ["c"])) (diamond ["c"])).map (·.tag) = ["duplicateProperties:D|[#/definitions/C.c]"] := by
+  decide +kernel
+def cycleBelow : List (String × Schema) :=
+  [("A", sAllOf [sAllOf [sRef "B"], sObj []]), ("B", sAllOf [sRef "C"]), ("C", sAllOf [sRef "B", sObj []])]
+theorem C03_witness_cycle_below_start :
+    Revisits (lookupIn cycleBelow) 64 (sAllOf [sAllOf [sRef "B"], sObj []]) [defRef "A"] :=
+  (circAnc_iff _ 64 "A" _ _).mp (by decide +kernel)
+
 /-- non-vacuity: a view with two operations that meets every rule -/
 def vGood : View :=
   { pathKeys := ["/a/{id}", "/b"],
